@@ -9,6 +9,7 @@ Decided (structural, necessary) clauses:
       with `?`/returned (never dropped, `.ok()`-ed or logged away), up to main where Err => exit(!=0).
   D3  the cache record is computed from the same values that were handed to the generator.
 """
+import re
 from common import Rule, V, finish
 from mirlib import ENTRY_POINTS, short_path, op_const
 from rulelib import (result_killed_unexamined, is_fs_mut, calls_named, try_propagated, continue_edge_of_try,
@@ -254,6 +255,27 @@ def check(ctx):
     r2.require_floor(8, "Result-returning filesystem-mutating call sites on the generation path")
     rules.append(r2)
 
+    # "success" is only reported for a run that looked at the project: in every function that drives a generation (it analyses the project and calls
+    # generate_models), each way out with Ok(..) lies behind the success edge of the analysis — nothing to generate, a cache hit, or a completed
+    # generation.  An Ok exit taken before that (an output path that is a file: "nothing was generated", exit 0) reports an unusable setup as success
+    for fid in sorted(reach):
+        f = P.fns[fid]
+        if "{closure" in fid or "{promoted" in fid or not any(c.path == GEN_MODELS and c.bb in f.reach_blocks for c in f.calls):
+            continue
+        an = [c for c in f.calls if c.bb in f.reach_blocks and re.search(r"CommandAnalyzer::analyze_project\w*$", short_path(c.best))]
+        if not an:
+            continue
+        for b in sorted(f.reach_blocks):
+            for st in f.blocks[b]["stmts"]:
+                rv = st.get("rv") or {}
+                if st.get("lhs") and st["lhs"]["l"] == 0 and not st["lhs"].get("p") and rv.get("k") == "aggr" and rv.get("variant") == "Ok":
+                    if any(f.dominates(c.bb, b) and c.bb != b for c in an):
+                        r2.ok("%s: Ok exit behind the project analysis" % short_path(fid))
+                    else:
+                        conds = [x for x in f.must_conditions(b) if not x.startswith("try(")]
+                        r2.bad(V(r2.id, fid, "ok-exit-before-analysis:%s" % ";".join(sorted(conds))[:100], "%s can return Ok(..) before the project was analysed (under %s): "
+                                 "a setup the run cannot work with is reported as success (exit 0) and nothing is generated" % (short_path(fid), conds or "no condition"),
+                                 st.get("file"), st.get("line")))
     r2b = Rule("C17-D2-main-exit-status", "D2",
                "in main, the Err outcome of run_generate/run_init leads to process::exit with a non-zero constant",
                "a failed run that exits 0 is 'reported as success'")
